@@ -3,6 +3,29 @@ from mutlib import sub, move_block
 
 K = "src/keys.rs"
 
+MINI_OLD = """        if int < u16::MAX as usize {
+            // Safety: The integer is less than the max value and then incremented by one, meaning that
+            // is is impossible for a zero to inhabit the NonZeroU16
+            unsafe {
+                Some(Self {
+                    key: NonZeroU16::new_unchecked(int as u16 + 1),
+                })
+            }
+        } else {
+            None
+        }"""
+LARGE_OLD = """        if int < usize::MAX {
+            // Safety: The integer is less than the max value and then incremented by one, meaning that
+            // is is impossible for a zero to inhabit the NonZeroUsize
+            unsafe {
+                Some(Self {
+                    key: NonZeroUsize::new_unchecked(int + 1),
+                })
+            }
+        } else {
+            None
+        }"""
+
 KEYS = [
     # ---- behaviour changes: the translator must still succeed, the proofs must FAIL ----
     ("k-guard-le", "Spur guard `<` -> `<=`", "fail", [(K, sub("if int < u32::MAX as usize {", "if int <= u32::MAX as usize {"))]),
@@ -44,6 +67,12 @@ macro_rules! impl_serde {"""))]),
     ("k-h-le-minus1", "MicroSpur guard as `int <= u8::MAX as usize - 1`", "pass", [(K, sub("if int < u8::MAX as usize {", "if int <= u8::MAX as usize - 1 {"))]),
     ("k-h-flipped", "MiniSpur guard as `u16::MAX as usize > int`", "pass", [(K, sub("if int < u16::MAX as usize {", "if u16::MAX as usize > int {"))]),
     ("k-h-literal", "Spur guard with the literal `4294967295`", "pass", [(K, sub("if int < u32::MAX as usize {", "if int < 4_294_967_295 {"))]),
+    ("k-h-checked", "MiniSpur in the unsafe-free style: u16::try_from(int).ok()?.checked_add(1)? + NonZeroU16::new(..).map(..)", "pass", [(K, sub(MINI_OLD, "        let raw = u16::try_from(int).ok()?.checked_add(1)?;\n        NonZeroU16::new(raw).map(|key| Self { key })"))]),
+    ("k-h-checked-large", "LargeSpur: int.checked_add(1).and_then(NonZeroUsize::new)?", "pass", [(K, sub(LARGE_OLD, "        let key = int.checked_add(1).and_then(NonZeroUsize::new)?;\n        Some(Self { key })"))]),
+    ("k-h-into-sub-first", "Spur into_usize: `(self.key.get() - 1) as usize`", "pass", [(K, sub("self.key.get() as usize - 1", "(self.key.get() - 1) as usize", nth=0, count=3))]),
+    ("k-checked-add-2", "unsafe-free MiniSpur with `checked_add(2)`", "fail", [(K, sub(MINI_OLD, "        let raw = u16::try_from(int).ok()?.checked_add(2)?;\n        NonZeroU16::new(raw).map(|key| Self { key })"))]),
+    ("k-try-from-u8", "unsafe-free MiniSpur with `u8::try_from` (wrong width)", "fail", [(K, sub(MINI_OLD, "        let raw = u8::try_from(int).ok()?.checked_add(1)? as u16;\n        NonZeroU16::new(raw).map(|key| Self { key })"))]),
+    ("k-l-checked-sub", "unsafe-free MiniSpur with an unknown `checked_sub`", "lost", [(K, sub(MINI_OLD, "        let raw = u16::try_from(int).ok()?.checked_sub(1)?;\n        NonZeroU16::new(raw).map(|key| Self { key })"))]),
     # ---- outside the subset: must be LOST, never mistranslated ----
     ("k-l-wrapping", "`int.wrapping_add(1)`", "lost", [(K, sub("new_unchecked(int + 1)", "new_unchecked(int.wrapping_add(1))"))]),
     ("k-l-two-fields", "impl Key for a struct with two fields", "lost", [(K, sub("macro_rules! impl_serde {", """pub struct PairSpur { key: NonZeroU8, tag: u8 }
@@ -68,6 +97,16 @@ F1_GUARD = """            // The bucket we can still afford must be able to hold
             }
 """
 ALLOC_FN_START = "    /// Doesn't actually allocate anything, but increments `self.memory_usage` and returns `None` if"
+
+ROOM = """    /// What is left of the memory budget
+    fn room(&self) -> usize {
+        if self.max_memory_usage < self.memory_usage {
+            return %s;
+        }
+        self.max_memory_usage - self.memory_usage
+    }
+
+    /// Store a slice in the Arena, returning `None` if memory is exhausted"""
 
 ARENA = [
     # ---- behaviour changes: translator ok, proofs must FAIL ----
@@ -126,6 +165,10 @@ ARENA = [
                     .ok_or_else(|| LassoError::new(LassoErrorKind::MemoryLimitReached))?,""", "                unsafe { NonZeroUsize::new_unchecked(remaining_memory) },"))]),
     ("a-h-usage-assign", "`self.memory_usage = self.memory_usage + requested_mem`", "pass", [(S, sub("self.memory_usage += requested_mem;", "self.memory_usage = requested_mem + self.memory_usage;"))]),
     ("b-h-free-let", "free_elements with a local", "pass", [(BK, sub("        self.capacity.get() - self.index\n", "        let cap = self.capacity.get();\n        cap - self.index\n"))]),
+    ("a-h-helper-early-return", "remaining memory computed by a private helper with an early `return 0`", "pass", [(S, sub("self.max_memory_usage.saturating_sub(self.memory_usage);", "self.room();")), (S, sub("    /// Store a slice in the Arena, returning `None` if memory is exhausted", ROOM % "0"))]),
+    ("a-helper-early-return-wrong", "the same helper, but its early return yields the limit instead of 0", "fail", [(S, sub("self.max_memory_usage.saturating_sub(self.memory_usage);", "self.room();")), (S, sub("    /// Store a slice in the Arena, returning `None` if memory is exhausted", ROOM % "self.max_memory_usage"))]),
+    ("a-h-split-impl", "the impl block split in two, allocate_memory through a #[cold] error helper", "pass", [(S, sub("    /// Doesn't actually allocate anything, but increments", "}\n\nimpl Arena {\n    #[cold]\n    fn limit_reached() -> LassoError {\n        LassoError::new(LassoErrorKind::MemoryLimitReached)\n    }\n\n    /// Doesn't actually allocate anything, but increments")), (S, sub("            Err(LassoError::new(LassoErrorKind::MemoryLimitReached))\n        } else {\n            self.memory_usage += requested_mem;", "            Err(Self::limit_reached())\n        } else {\n            self.memory_usage += requested_mem;"))]),
+    ("a-l-recursive-helper", "a recursive private helper", "lost", [(S, sub("self.max_memory_usage.saturating_sub(self.memory_usage);", "self.room();")), (S, sub("    /// Store a slice in the Arena, returning `None` if memory is exhausted", "    fn room(&self) -> usize {\n        self.room()\n    }\n\n    /// Store a slice in the Arena, returning `None` if memory is exhausted"))]),
     # ---- outside the subset: LOST ----
     ("a-l-wrapping", "`wrapping_add` in allocate_memory", "lost", [(S, sub("if self.memory_usage + requested_mem > self.max_memory_usage {", "if self.memory_usage.wrapping_add(requested_mem) > self.max_memory_usage {"))]),
     ("a-l-checked-mul", "`checked_mul(2).unwrap()`", "lost", [(S, sub("self.bucket_capacity.get() * 2;", "self.bucket_capacity.get().checked_mul(2).unwrap();"))]),
